@@ -1,6 +1,6 @@
 (* Props/C15.v — broken pipes and errors are handled cleanly (logic part; decoder, buffering and file descriptors
    are runtime behaviour observed by the correspondence run only) *)
-From RBQL Require Import Base Value Expr Writers Join Agg Engine Pipe Pipe_Proofs.
+From RBQL Require Import Base Value Expr Writers Join Agg Engine Pipe Pipe_Proofs Protocol_Proofs.
 
 (* CSVWriter: a BrokenPipeError from either stream write of a record makes write() return False and sets
    broken_pipe; finish() then performs no stream operation at all (no write, no flush, no close) *)
@@ -35,6 +35,37 @@ Theorem C15_stop_is_not_an_error :
     main_loop eval w q jm ls nr (a :: A) = (ls', S nr, None).
 Proof. intros expr eval w q jm ls nr a A ls' H. cbn [main_loop]. rewrite H. reflexivity. Qed.
 Print Assumptions C15_stop_is_not_an_error.
+
+(* THE PROTOCOL seen by a user-supplied writer: for every query shape (streaming, sorted, aggregated, distinct, distinct
+   count, unnest, update), every answer pattern w of the writer (in particular: refusing its k-th write, for every k) and
+   every expression semantics, the calls it receives are, in order,
+       [set_header]  write* (all answered True)  [one write answered False]  finish      after a run without error
+       [set_header]  write* (all answered True)  [one write answered False]              after a failed run
+   i.e. set_header at most once and before any write, no write after one returned False, finish exactly once - as the last
+   call - after a successful run and never after a failure. *)
+Theorem C15_protocol :
+  forall (expr : Type) (eval : env -> expr -> res val) (w : nat -> bool) (q : query expr) hdr A B,
+    static_check q = None ->
+    let o := run eval w q hdr A B in
+    match o_error o with
+    | None => exists hs ws fl, rev (s_trace (o_chain o)) = hs ++ ws ++ fl ++ [EvFinish]
+                /\ (hs = [] \/ exists h, hs = [EvHeader h])
+                /\ Forall (fun e => exists r, e = EvWrite r true) ws
+                /\ (fl = [] \/ exists r, fl = [EvWrite r false])
+    | Some _ => (exists hs ws, rev (s_trace (o_chain o)) = hs ++ ws
+                   /\ (hs = [] \/ exists h, hs = [EvHeader h]) /\ Forall (fun e => exists r, e = EvWrite r true) ws)
+                \/ (exists hs ws r, rev (s_trace (o_chain o)) = hs ++ ws ++ [EvWrite r false]
+                   /\ (hs = [] \/ exists h, hs = [EvHeader h]) /\ Forall (fun e => exists r, e = EvWrite r true) ws)
+    end.
+Proof. intros expr eval w q hdr A B Hst. exact (run_protocol expr eval w q Hst hdr A B). Qed.
+Print Assumptions C15_protocol.
+
+(* a query rejected by the static checks never touches the writer *)
+Theorem C15_static_error_silent :
+  forall (expr : Type) (eval : env -> expr -> res val) w (q : query expr) hdr A B t,
+    static_check q = Some t -> s_trace (o_chain (run eval w q hdr A B)) = [].
+Proof. intros expr eval. exact (@static_error_no_output expr eval). Qed.
+Print Assumptions C15_static_error_silent.
 
 Example C15_nonvacuous :
   accepted (csv_finish false (csv_feed (breaks_at 3) [10%N] pw_init [[97%N]; [98%N]; [99%N]])) = [[97%N]; [10%N]; [98%N]]
